@@ -98,7 +98,7 @@ fuzz_target!(|data: &[u8]| {
                 b'P' => Parse::try_from(&msg).map(|p| {
                     let _ = p.get_hash();
                     let _ = p.anonymous();
-                    let _: Result<BytesMut, _> = p.rewrite().try_into();
+                    let _: Result<BytesMut, _> = p.try_into();
                 }),
                 b'B' => {
                     let _ = Bind::get_name(&msg);
